@@ -18,7 +18,8 @@ const USAGE: &str = "\
 usage:
   gramfacts facts <grammar.lalrpop> [--lock <Cargo.lock>] [--automata all|none|A,B,..]
                   [--features a,b] [--pretty]
-  gramfacts regex2dfa [--pretty]        (stdin: JSON list of {kind: regex|literal, pattern})
+  gramfacts regex2dfa [--leftmost-first] [--pretty]
+                  (stdin: JSON list of {kind: regex|literal, pattern})
   gramfacts lfcheck [--grammar <grammar.lalrpop>] [--pretty]
                   (stdin: JSON list of {kind: regex|literal, pattern}; with --grammar the
                   match entries of that grammar are checked instead and stdin is not read)
@@ -162,7 +163,15 @@ fn cmd_facts(args: &[String]) {
 }
 
 fn cmd_regex2dfa(args: &[String]) {
-    let a = parse_args(args, &[], &["--pretty"]);
+    let a = parse_args(args, &[], &["--pretty", "--leftmost-first"]);
+    let lf = a.flag("--leftmost-first");
+    let build = |kind: dfa::PatternKind, p: &str| {
+        if lf {
+            lfcheck::build_lf_dfa(kind, p)
+        } else {
+            dfa::build(kind, p)
+        }
+    };
     if !a.positional.is_empty() {
         fail(&format!("regex2dfa reads its input from stdin\n{}", USAGE));
     }
@@ -181,8 +190,8 @@ fn cmd_regex2dfa(args: &[String]) {
         let kind = item.get("kind").and_then(|k| k.as_str());
         let pattern = item.get("pattern").and_then(|k| k.as_str());
         let res = match (kind, pattern) {
-            (Some("regex"), Some(p)) => dfa::build(dfa::PatternKind::Regex, p),
-            (Some("literal"), Some(p)) => dfa::build(dfa::PatternKind::Literal, p),
+            (Some("regex"), Some(p)) => build(dfa::PatternKind::Regex, p),
+            (Some("literal"), Some(p)) => build(dfa::PatternKind::Literal, p),
             _ => Err("entry must be {kind: \"regex\"|\"literal\", pattern: <string>}".to_string()),
         };
         match res {
